@@ -38,31 +38,32 @@ var propagateProps = map[string]bool{
 
 // "function|callee" → reason (each read in the source)
 var propagateExcept = map[string]string{
+	"toml.parseByteCount|strconv.ParseUint":                                            "not a plain integer: the input is handed to the suffix-aware parser, whose result (and error) is returned",
 	"kit/io.LimitedReadCloser.Close|io.Closer.Close":                                   "an earlier error (limit exceeded, or the error of the first Close) takes precedence and is the non-nil error returned; otherwise the close error is stored in l.err and returned",
 	"replications/remotewrite.writer.Write|replications/remotewrite.PostWrite":         "a 400 answer with DropNonRetryableData set deliberately drops the batch; C27 success-means-accepted decides exactly which PostWrite failures may return nil",
-	"authorizer.AuthorizeFindUserResourceMappings|authorizer.AuthorizeRead":                                      "filter: an unauthorised mapping is skipped, not an error (C29 decides the filter)",
-	"authorizer.OrgService.FindOrganizations|authorizer.AuthorizeReadGlobal":                                     "without the global read permission the filter is narrowed to the caller's own user and the result is filtered again",
-	"dbrp.Service.Delete|dbrp.Service.FindByID":                                                                  "documented: deleting a mapping that does not exist is not an error",
-	"dbrp.Service.FindMany|..BucketService.FindBuckets":                                                          "virtual mappings are best-effort: the physical mappings found so far are returned",
-	"pkg/durablequeue.Queue.loadSegments|strconv.ParseUint":                                                      "directory entries whose name is not numeric are not segments and are skipped",
-	"pkg/durablequeue.Queue.trimHead|pkg/durablequeue.segment.close":                                             "the head segment is dropped from the queue regardless; failing to close the file is logged",
-	"pkg/durablequeue.Queue.trimHead|os.Remove":                                                                  "the head segment is dropped from the queue regardless; failing to remove the file is logged",
-	"pkg/durablequeue.segment.open|pkg/durablequeue.segment.readBytes":                                           "a short block is repaired (truncate + footer) and the segment re-opened; the re-open's result is returned",
-	"pkg/durablequeue.segment.open|l.verifyBlockFn":                                                              "a block that fails verification truncates the segment to its start and re-opens it; the re-open's result is returned",
-	"pkg/durablequeue.segment.repair|pkg/durablequeue.segment.readUint64":                                        "a short record-size read marks the tail for truncation, which is the repair",
-	"task/backend.NotifyCoordinatorOfExisting|task/backend.TaskService.UpdateTask":                               "start-up resume: a task whose latestCompleted cannot be updated is logged and skipped, the others are still scheduled",
-	"task/backend.TaskNotifyCoordinatorOfExisting|task/backend.TaskService.UpdateTask":                           "start-up resume: a task whose latestCompleted cannot be updated is logged and skipped, the others are still scheduled",
-	"tsdb.SeriesPartition.openSegments|tsdb.ParseSeriesSegmentFilename":                                          "directory entries that are not segment files are skipped",
-	"tsdb.Shard.closeNoLock|tsdb.Index.Close":                                                                    "the engine's close error is the one reported; the index handle is kept when its close failed",
-	"tsdb.Shard.validateSeriesAndFields|tsdb.Engine.CreateSeriesListIfNotExists":                                 "a PartialWriteError is turned into the dropped count / reason that WritePoints reports (C40 decides that accounting); every other error returns",
-	"tsdb/engine/tsm1.Engine.Digest|os.Open":                                                                     "a cached digest that cannot be opened is regenerated",
-	"tsdb/engine/tsm1.Engine.Open|tsdb.NewMeasurementFieldSet":                                                   "an unreadable fields.idx is logged and rebuilt from the TSM files and the WAL",
-	"tsdb/engine/tsm1.Engine.WritePoints|tsdb/engine/tsm1.Engine.Type":                                           "an unknown field type means the field is new: it may be added",
-	"tsdb/engine/tsm1.Engine.deleteSeriesRange|tsdb.SeriesFile.FlushSegments":                                    "the delete has been applied; a failed flush of the series-file segments is logged",
-	"tsdb/engine/tsm1.Engine.writeSnapshotAndCommit|tsdb/engine/tsm1.WAL.Remove":                                 "the snapshot is live in the file store; WAL segments that could not be removed are replayed idempotently and removed by a later snapshot",
-	"tsdb/engine/tsm1.FileStore.replace|os.File.Stat":                                                            "the modification time is only used for the last-modified statistic",
-	"tsdb/engine/tsm1.Tombstoner.Walk|os.File.Read":                                                              "a zero-length tombstone file (old bug) is read as an empty v1 file",
-	"tsdb/engine/tsm1.removeTmpFilesOnErr|tsdb/engine/tsm1.removeTmpFiles":                                       "error-path helper: returns the caller's original errors joined with any removal error",
+	"authorizer.AuthorizeFindUserResourceMappings|authorizer.AuthorizeRead":            "filter: an unauthorised mapping is skipped, not an error (C29 decides the filter)",
+	"authorizer.OrgService.FindOrganizations|authorizer.AuthorizeReadGlobal":           "without the global read permission the filter is narrowed to the caller's own user and the result is filtered again",
+	"dbrp.Service.Delete|dbrp.Service.FindByID":                                        "documented: deleting a mapping that does not exist is not an error",
+	"dbrp.Service.FindMany|..BucketService.FindBuckets":                                "virtual mappings are best-effort: the physical mappings found so far are returned",
+	"pkg/durablequeue.Queue.loadSegments|strconv.ParseUint":                            "directory entries whose name is not numeric are not segments and are skipped",
+	"pkg/durablequeue.Queue.trimHead|pkg/durablequeue.segment.close":                   "the head segment is dropped from the queue regardless; failing to close the file is logged",
+	"pkg/durablequeue.Queue.trimHead|os.Remove":                                        "the head segment is dropped from the queue regardless; failing to remove the file is logged",
+	"pkg/durablequeue.segment.open|pkg/durablequeue.segment.readBytes":                 "a short block is repaired (truncate + footer) and the segment re-opened; the re-open's result is returned",
+	"pkg/durablequeue.segment.open|l.verifyBlockFn":                                    "a block that fails verification truncates the segment to its start and re-opens it; the re-open's result is returned",
+	"pkg/durablequeue.segment.repair|pkg/durablequeue.segment.readUint64":              "a short record-size read marks the tail for truncation, which is the repair",
+	"task/backend.NotifyCoordinatorOfExisting|task/backend.TaskService.UpdateTask":     "start-up resume: a task whose latestCompleted cannot be updated is logged and skipped, the others are still scheduled",
+	"task/backend.TaskNotifyCoordinatorOfExisting|task/backend.TaskService.UpdateTask": "start-up resume: a task whose latestCompleted cannot be updated is logged and skipped, the others are still scheduled",
+	"tsdb.SeriesPartition.openSegments|tsdb.ParseSeriesSegmentFilename":                "directory entries that are not segment files are skipped",
+	"tsdb.Shard.closeNoLock|tsdb.Index.Close":                                          "the engine's close error is the one reported; the index handle is kept when its close failed",
+	"tsdb.Shard.validateSeriesAndFields|tsdb.Engine.CreateSeriesListIfNotExists":       "a PartialWriteError is turned into the dropped count / reason that WritePoints reports (C40 decides that accounting); every other error returns",
+	"tsdb/engine/tsm1.Engine.Digest|os.Open":                                           "a cached digest that cannot be opened is regenerated",
+	"tsdb/engine/tsm1.Engine.Open|tsdb.NewMeasurementFieldSet":                         "an unreadable fields.idx is logged and rebuilt from the TSM files and the WAL",
+	"tsdb/engine/tsm1.Engine.WritePoints|tsdb/engine/tsm1.Engine.Type":                 "an unknown field type means the field is new: it may be added",
+	"tsdb/engine/tsm1.Engine.deleteSeriesRange|tsdb.SeriesFile.FlushSegments":          "the delete has been applied; a failed flush of the series-file segments is logged",
+	"tsdb/engine/tsm1.Engine.writeSnapshotAndCommit|tsdb/engine/tsm1.WAL.Remove":       "the snapshot is live in the file store; WAL segments that could not be removed are replayed idempotently and removed by a later snapshot",
+	"tsdb/engine/tsm1.FileStore.replace|os.File.Stat":                                  "the modification time is only used for the last-modified statistic",
+	"tsdb/engine/tsm1.Tombstoner.Walk|os.File.Read":                                    "a zero-length tombstone file (old bug) is read as an empty v1 file",
+	"tsdb/engine/tsm1.removeTmpFilesOnErr|tsdb/engine/tsm1.removeTmpFiles":             "error-path helper: returns the caller's original errors joined with any removal error",
 }
 
 func propagatePass(id string, p *core.Prog, r *core.Report) {
